@@ -1163,6 +1163,11 @@ class Exec:
 
                 lib.dict_update(self, cur, self.eval(st.value))
                 return
+            from . import lib
+
+            r = lib.inplace_hook(self, st.op, cur, self.eval(st.value), st.target.id) if hasattr(lib, "inplace_hook") else None
+            if r:
+                return  # in-place update of a library object (numpy array): the object itself was written
             new = self.binop(st.op, cur, self.eval(st.value))
             self.assign(st.target, new)
         elif isinstance(st.target, ast.Subscript):
@@ -1612,7 +1617,11 @@ class Exec:
         if base.ty.kind == "raw" and isinstance(base.aux, tuple) and base.aux and base.aux[0] == "frame-iloc":
             from . import lib
 
-            return lib.subscript_hook(self, base, SV(None, T.RAW, aux=("opaque-key",)))  # positional selector, not evaluated
+            self._iloc_src = ast.unparse(node.slice)
+            try:
+                return lib.subscript_hook(self, base, SV(None, T.RAW, aux=("opaque-key",)))  # positional selector, not evaluated
+            finally:
+                self._iloc_src = None
         key = self.eval(node.slice)
         return self.subscript_load(base, key)
 
